@@ -245,6 +245,23 @@ def punct_tree(rng):
                           'word-keyword', 'word-unicode', 'pos-punct-char',
                           'pos-apostrophe'],
               root_labels=['TOP', 'ROOT', 'S'])
+    if rng.random() < 0.2:
+        # a relative clause as the relc option sees it: a constituent whose
+        # first token is a comma and whose second token is the relative
+        # pronoun, followed by a plain or a paired punctuation token
+        toks = sorted(gen.tokens_of(spec['root']), key=lambda t: t['n'])
+        cands = []
+        for c in gen.walk(spec['root']):
+            if 'c' in c and c is not spec['root']:
+                ys = sorted(t['n'] for t in gen.tokens_of(c))
+                if len(ys) >= 2 and ys == list(range(ys[0], ys[-1] + 1)) \
+                        and ys[-1] < len(toks):
+                    cands.append(ys)
+        if cands:
+            ys = rng.choice(cands)
+            toks[ys[0] - 1]['w'] = ','
+            toks[ys[0]]['p'] = rng.choice(['PRELS', 'PRELSAT'])
+            toks[ys[-1]]['w'] = rng.choice([',', ',', '.', '"', ')'])
     if rng.random() < 0.5:
         # NeGra style: punctuation hangs under the root
         root = spec['root']
